@@ -23,18 +23,27 @@ func zzStubDigest(pub *PublicKey, msg, uid []byte) ([]byte, error) {
 //
 //verif:property C01
 //verif:expect-reach signed
-//verif:bound abstract prime-order group of order q=257 (quick) / 65537 (thorough) (Fermat primes: the nonce reduction mod q-1 is a bit mask, which keeps the 72-bit reduction out of the solver) in place of the curve; d in [1,q-2]; digest an arbitrary function of (key,msg,uid) with 16-bit values (the group order has 9 or 17 bits); up to 3 nonce draws (a 4th draw is an unwinding failure)
+//verif:bound abstract prime-order group of order q=257 (a Fermat prime: the nonce reduction mod q-1 is a bit mask; q=65537 takes 19 min and is not registered) in place of the curve; d each of {1,100,q-2} (quick) / {1,2,3,100,q/2,q-3,q-2} (thorough) with the nonce bytes (80 bits) and the digest symbolic; digest an arbitrary function of (key,msg,uid) with 16-bit values (the group order has 9 or 17 bits); up to 2 nonce draws (runs needing a third draw are outside the bound)
 //verif:outside the real curve inside sign/verify (see C03); hash chaining (C04)
 //verif:stub-symbolic (*github.com/tjfoc/gmsm/sm2.PublicKey).Sm3Digest zzStubDigest
 //verif:unwind 4
 //verif:nomerge
-//verif:thorough-only
 func zzH_c01_sign_spec() {
-	g := zzNewGroup(zzQ())
+	g := zzNewGroup(257)
 	q := g.q()
-	priv, d := zzKey(g, "d")
+	// the private key is one of a fixed list (so that (1+d)^-1 is a constant: with a symbolic key
+	// the solvers do not decide the modular algebra, see DESIGN.md); nonce and digest stay symbolic
+	ds := []int64{1, 100, q - 2}
+	if vTier() == 1 {
+		ds = []int64{1, 2, 3, 100, q / 2, q - 3, q - 2}
+	}
+	d := ds[vChoice("d", len(ds))]
+	priv := new(PrivateKey)
+	priv.Curve = g
+	priv.D = big.NewInt(d)
+	priv.X, priv.Y = g.point(d)
 	msg := vBytes("msg", 4, 4)
-	rnd := &zzRand{}
+	rnd := &zzRand{max: 2}
 	r, s, err := Sm2Sign(priv, msg, nil, rnd)
 	vAssert("sign-no-error", err == nil)
 	if err != nil {
